@@ -41,7 +41,7 @@ ASSUMPTIONS = ['single thread, no schedule: the fault plan is the whole search s
 
 KINDS = ['filter', 'filter_sub', 'value', 'key', 'index', 'notimpl']
 CATCHES = ['filter', 'filter', 'value', ['filter', 'key'], ['value', 'key'], 'filter_sub',
-           ['filter', 'index'], 'index', ['value', 'notimpl']]
+           ['filter', 'index'], 'index', ['value', 'notimpl'], []]
 
 
 def gen_desc(rng):
@@ -143,6 +143,11 @@ def gen(rng, tier, index):
             plans.append([{'stage': rng.choice(sites), 'pos': rng.choice(ids),
                            'exc': rng.choice(KINDS)} for _ in range(k)])
     plans.append([])
+    if ids and sites:
+        # every example fails with the same kind (nothing, or everything, is left)
+        site_all = rng.choice(sites)
+        kind_all = rng.choice(KINDS)
+        plans.append([{'stage': site_all, 'pos': p, 'exc': kind_all} for p in ids])
     if ids:
         # examples that fail in one pass only (flaky loader)
         for _ in range(2):
